@@ -182,7 +182,8 @@ def compare_b(problem, res):
 def engine_b(rep, tier, seed, cov):
     rng = core.stream(core.run_seed(seed, "c21b", 0), "workload")
     nprob = 1 if tier == "quick" else 16
-    problems = []
+    problems = [{"param": 11 + seed % 97, "n_samples": 2, "sample_mode": "nonlinear_update",
+                 "constants": [], "point_estimates": ["c"]}]
     for i in range(nprob):
         problems.append({"param": rng.randrange(1, 500), "n_samples": rng.choice([1, 2, 3]),
                          "sample_mode": rng.choice(["linear_resample", "nonlinear_resample", "nonlinear_update"]),
